@@ -67,8 +67,8 @@ def scenarios():
     hs = HS().score
     S = []
 
-    def add(name, warm, bodies, tiers=('quick', 'thorough'), bound=(2, 2), atomic=()):
-        S.append(dict(name=name, warm=warm, bodies=bodies, tiers=tiers, bound=dict(quick=bound[0], thorough=bound[1]), atomic=atomic))
+    def add(name, warm, bodies, tiers=('quick', 'thorough'), bound=(2, 2), atomic=(), opcodes=False):
+        S.append(dict(name=name, warm=warm, bodies=bodies, tiers=tiers, bound=dict(quick=bound[0], thorough=bound[1]), atomic=atomic, opcodes=opcodes))
 
     sc, pf = a.athlon_score, a.athlon_performance_needed
     # S1 combined events
@@ -137,6 +137,24 @@ def scenarios():
         [_call(sv, 'json/athlete.json', D4), _call(sv, 'json/athlete.json', D4)])
     add('S5 schema_valid x3, cache at 19', [lambda: fill_schema_cache(19)],
         [_call(sv, 'json/athlete.json', D4), _call(sv, 'json/event.json', D4), _call(sv, 'json/race.json', D4)], tiers=('thorough',), bound=(1, 2))
+    # S7 the warmed-up and cache scenarios once more with a scheduling point before every BYTECODE instruction executed inside athlib (a switch
+    # inside one source line: `d[k] = f(x)`, `a, b = b, a`, augmented assignments), one pre-emption (thorough: two for the shortest)
+    add('S7 opcode granularity: athlon score||score warmed-up', [_call(sc, 'M', '100', 11)], [_call(sc, 'M', '100', 10.5), _call(sc, 'F', 'HJ', 1.8)],
+        bound=(1, 1), opcodes=True)
+    add('S7 opcode granularity: athlon score with age || score warmed-up', [_call(sc, 'M', '100', 11, 40)], [_call(sc, 'M', '100', 12.5, 50), _call(sc, 'F', 'LJ', 4.5, 60)],
+        bound=(1, 1), opcodes=True, tiers=('thorough',))
+    add('S7 opcode granularity: hungarian warmed-up', [_call(hs, 'M', 'OUT', '200', 21)], [_call(hs, 'M', 'OUT', '100', 10.5), _call(hs, 'F', 'OUT', 'LJ', 6.5)],
+        bound=(1, 1), opcodes=True)
+    add('S7 opcode granularity: sportshall warmed-up', [_call(ss, 'SHJ', '30')], [_call(ss, 'SLJ', '1.50'), _call(ss, '100', '30.0')], bound=(1, 1), opcodes=True)
+    add('S7 opcode granularity: wma_age_factor||wma_age_factor warmed-up, early rows', [_call(af, 'm', 40, '55H')], [_call(af, 'm', 50, '55H'), _call(af, 'f', 62, '60H')],
+        bound=(1, 1), opcodes=True)
+    add('S7 opcode granularity: schema_valid||schema_valid distinct keys, cache at 20', [lambda: fill_schema_cache(20)],
+        [_call(sv, 'json/athlete.json', D4), _call(sv, 'json/event.json', D4)], bound=(1, 2), opcodes=True)
+    add('S7 opcode granularity: schema_valid hit||evicting insert, cache at 20', [lambda: fill_schema_cache(19), _call(sv, 'json/athlete.json', D4)],
+        [_call(sv, 'json/athlete.json', D4), _call(sv, 'json/event.json', D4)], bound=(1, 2), opcodes=True)
+    add('S7 opcode granularity: valid_against_schema hit||evicting insert, cache at 20',
+        [lambda: fill_doc_cache(19), _call(va, 'sample-jsons/athlete.json', 'json/athlete.json')],
+        [_call(va, 'sample-jsons/athlete.json', 'json/athlete.json'), _call(va, 'sample-jsons/event.json', 'json/event.json')], bound=(1, 1), opcodes=True)
     return S
 
 
@@ -154,7 +172,7 @@ def build(sd):
     if sd['atomic']:
         m = common.mod(sd['atomic'][0])
         atomic = (getattr(m, sd['atomic'][1]).__code__,)
-    return sched.Scenario(sd['name'], reset, sd['bodies'], [b.desc for b in sd['bodies']], atomic), warm_snap
+    return sched.Scenario(sd['name'], reset, sd['bodies'], [b.desc for b in sd['bodies']], atomic, opcodes=sd.get('opcodes', False)), warm_snap
 
 
 def atomic_admissible(sd):
@@ -188,6 +206,14 @@ def run_scenario(idx, sd, tier, rep):
         rep.part(sd['name'], skipped='frame compression not admissible on this tree; the uncompressed bound-1 scenario still applies')
         return 0
     sc, ws = build(sd)
+    sched.opcode_monitor(bool(sd.get('opcodes')))
+    try:
+        return _run_scenario(idx, sd, tier, rep, sc, ws, t0)
+    finally:
+        sched.opcode_monitor(False)
+
+
+def _run_scenario(idx, sd, tier, rep, sc, ws, t0):
     ex = sched.Explorer(sc, sd['bound'][tier])
     alts = ex.frontier()
     nchunks = max(1, min(len(alts), common.NPROC * 4))
@@ -263,7 +289,7 @@ def run(tier):
                  'executed inside athlib/ (sys.settrace), default = run to completion in id order; every execution runs to completion and is compared '
                  'with the single-threaded results')
     c['exhaustive'] = True
-    rep.assumptions += ['a thread switch inside one source line is not modelled (the property states line granularity)',
+    rep.assumptions += ['a thread switch inside one source line is modelled only in the S7 scenarios (bytecode granularity, one pre-emption); the property states line granularity',
                         'threading.Lock/RLock created while athlib is imported are replaced by baton-aware locks; Condition/Event are not supported',
                         'shared state is restored generically before every execution (vlib/shared.py); large tables are checked for in-place mutation']
     if tot_exec < 1000:
